@@ -210,6 +210,9 @@ func check(sc Scenario, ex execution) ([]violation, facts) {
 			}
 		case "pubcall":
 			for _, q := range log[i:] {
+				if q.K == "pubret" && q.Ser == r.Ser && q.Err == sse.ErrNoTopic && len(ex.msgTopics[r.Ser]) == 0 { //nolint:errorlint
+					continue // a publish without topics is refused as such, closed or not ("parameter validation should happen first")
+				}
 				if q.K == "pubret" && q.Ser == r.Ser && q.Err != sse.ErrProviderClosed { //nolint:errorlint
 					bad("C07", "Publish(%s) started after Shutdown had returned nil returned %v, want ErrProviderClosed", r.Ser, q.Err)
 				}
